@@ -1,5 +1,6 @@
 import Aergo.Model.DriverLib
 import Aergo.Model.Trie
+import Aergo.Model.TrieCompress
 import Aergo.Model.Sha256
 
 /-! Model driver for C11: tries are built as in C10 (`new`, `update`, `commit`, `reopen`), then
@@ -10,17 +11,15 @@ open Aergo Aergo.DriverLib Aergo.Trie
 def bytesToBits (bs : List UInt8) : List Bool :=
   bs.flatMap fun b => (List.range 8).map fun i => (b.toNat >>> (7 - i)) % 2 == 1
 
-def bitsToBytes : List Bool → List UInt8
-  | a :: b :: c :: d :: e :: f :: g :: h :: rest =>
-    UInt8.ofNat ((if a then 128 else 0) + (if b then 64 else 0) + (if c then 32 else 0) + (if d then 16 else 0) +
-      (if e then 8 else 0) + (if f then 4 else 0) + (if g then 2 else 0) + (if h then 1 else 0)) :: bitsToBytes rest
-  | _ => []
+def bitsToBytes : List Bool → List UInt8 := packBits
 
 def ctx : HashCtx := { H := Sha256.sha256, enc := bitsToBytes }
 
 structure St where
   cur : T Bytes := .empty
   committed : Array (T Bytes) := #[]
+  /-- the trie the StateDB instance is positioned at (the latest account trie), for `acctprove` / `varprove` -/
+  acct : T Bytes := .empty
 
 def parseKV (s : String) : Option (KV Bytes) :=
   match s.splitOn "=" with
@@ -38,24 +37,20 @@ def parseList (s : String) : Option (List Bytes) :=
 
 def optHex (o : Option Bytes) : String := match o with | some b => hex b | none => "-"
 
-/-- `bitIsSet(bitmap, i)`; `none` = index out of range (Go panics). -/
-def bitAt (bm : Bytes) (i : Nat) : Option Bool :=
-  (bm[i / 8]?).map fun b => (b.toNat >>> (7 - i % 8)) % 2 == 1
-
 def apHashes (ap : List (Sib Bytes)) : List Bytes := ap.map fun (h, p, t) => hashT ctx h p t
-
-/-- merkleProofCompressed: bitmap of len/8+1 bytes, bit i set iff the i-th (deepest first) sibling is not default -/
-def compress (ap : List Bytes) : Bytes × List Bytes :=
-  let n := ap.length / 8 + 1
-  let bits := ap.map fun x => x != defaultLeaf
-  let padded := bits ++ List.replicate (n * 8 - bits.length) false
-  (bitsToBytes padded, ap.filter fun x => x != defaultLeaf)
 
 def rootBytes (s : St) : Bytes := rootOf ctx 256 s.cur
 
 def c11Step (s : St) (line : String) : St × String :=
   match words line with
-  | ["new"] => ({}, "ok")
+  | ["new"] => ({ acct := s.acct }, "ok")
+  | ["setacct"] => ({ s with acct := s.cur }, "ok")
+  -- StateDB.GetAccountAndProof on an instance positioned at `acct`: at the trie last reopened ("req") or with no root ("latest")
+  | ["acctprove", k, r] => nodeProof s k r false false
+  | ["acctprovec", k, r] => nodeProof s k r false true
+  -- StateDB.GetVarAndProof(key, root of the current (storage) trie) on an instance positioned at `acct`
+  | ["varprove", k] => nodeProof s k "req" true false
+  | ["varprovec", k] => nodeProof s k "req" true true
   | "update" :: kvs =>
     match kvs.mapM parseKV with
     | some (kv :: rest) =>
@@ -87,21 +82,20 @@ def c11Step (s : St) (line : String) : St × String :=
         | some v, _ => some v
         | none, some kv => some kv.2
         | none, none => none
-      let full := apHashes p.ap
-      let (bm, ap) := compress full
-      (s, s!"proofc inc={p.included} pk={optHex pk} pv={optHex pv} bitmap={hex bm} len={full.length} ap={hexList ap}")
+      let (bm, ap, len) := compress (apHashes p.ap)
+      (s, s!"proofc inc={p.included} pk={optHex pk} pv={optHex pv} bitmap={hex bm} len={len} ap={hexList ap}")
     | none => (s, "bad-op")
   | ["vinc", root, key, value, ap] =>
     match unhex root, unhex key, unhex value, parseList ap with
     | some r, some k, some v, some ap =>
-      if ap.length > k.length * 8 then (s, "panic") else
+      if ap.length > k.length * 8 then (s, "false") else   -- Go: index out of range = rejected
       (s, toString (verifyInclusion ctx 256 r ap (bytesToBits k) v))
     | _, _, _, _ => (s, "bad-op")
   | ["vexc", root, key, value, pk, ap] =>
     match unhex root, unhex key, unhex value, unhex pk, parseList ap with
     | some r, some k, some v, some pk, some ap =>
-      if ap.length > k.length * 8 then (s, "panic") else
-      if !pk.isEmpty && ap.length > pk.length * 8 then (s, "panic") else
+      if ap.length > k.length * 8 then (s, "false") else
+      if !pk.isEmpty && ap.length > pk.length * 8 then (s, "false") else
       (s, toString (verifyNonInclusion ctx 256 r ap (bytesToBits k) v (if pk.isEmpty then none else some (bytesToBits pk))))
     | _, _, _, _, _ => (s, "bad-op")
   | ["vincc", root, bitmap, key, value, len, ap] =>
@@ -116,26 +110,27 @@ def c11Step (s : St) (line : String) : St × String :=
     | _, _, _, _, _, _, _ => (s, "bad-op")
   | _ => (s, "bad-op")
 where
-  /-- `VerifyInclusionC` (excl = none) / `VerifyNonInclusionC` (excl = some proofKey?) -/
+  /-- the model's `getAccountProof` / `getVarProof` (load = identity: the harness prints the hash of what was loaded) -/
+  nodeProof (s : St) (k r : String) (isVar compressed : Bool) : St × String :=
+    match unhex k, (r == "req" || r == "latest") with
+    | some kb, true =>
+      let key := bytesToBits kb
+      let pr := if isVar then getVarProof ctx 256 id s.acct s.cur key
+        else getAccountProof ctx 256 id s.acct (if r == "req" then some s.cur else none) key
+      let pv := match pr.value with | some v => v | none => pr.proofVal
+      let head := s!"inc={pr.inclusion} pk={optHex (pr.proofKey.map bitsToBytes)} pv={hex pv}"
+      if compressed then
+        let (bm, ap, len) := compress pr.ap
+        (s, s!"nproofc {head} bitmap={hex bm} len={len} ap={hexList ap}")
+      else (s, s!"nproof {head} ap={hexList pr.ap}")
+    | _, _ => (s, "bad-op")
+  /-- `VerifyInclusionC` (excl = none) / `VerifyNonInclusionC` (excl = some proofKey?): the model's verdict, `none` = panic -/
   verdictC (r bm : Bytes) (k : List Bool) (v : Bytes) (len : Nat) (ap : List Bytes)
       (excl : Option (Option (List Bool))) : String :=
-    -- bits root first: bitIsSet(bitmap, length-keyIndex-1)
-    match (List.range len).mapM (fun j => bitAt bm (len - 1 - j)) with
-    | none => "panic"
-    | some bits =>
-      let inc (key : List Bool) (leaf : Bytes) : Option Bool :=
-        if len > key.length then none else
-        (vUpC ctx key bits ap.reverse leaf).map (r == ·)
-      let leafOf (key : List Bool) := ctx.H (ctx.enc key ++ v ++ [byteOf (256 - len)])
-      let show? (o : Option Bool) := match o with | some b => toString b | none => "panic"
-      match excl with
-      | none => show? (inc k (leafOf k))
-      | some none => if len == 0 then toString r.isEmpty else show? (inc k defaultLeaf)
-      | some (some pk) =>
-        if pk = k then "false" else
-        match inc pk (leafOf pk) with
-        | none => "panic"
-        | some false => "false"
-        | some true => if len > k.length then "panic" else toString (k.take len == pk.take len)
+    -- `none` is a panic of the Go verifier: a rejection (the harness folds it into "false" too)
+    let show? (o : Option Bool) := match o with | some b => toString b | none => "false"
+    match excl with
+    | none => show? (verifyInclusionC ctx 256 r bm k v ap len)
+    | some pk => show? (verifyNonInclusionC ctx 256 r bm k v pk ap len)
 
 def main : IO UInt32 := run ({} : St) c11Step
